@@ -1127,7 +1127,21 @@ func (l *ledger) redoChecks(b *types.Block) {
 		}
 		c.Count("c07:redo-accounts-compared")
 		if diff != "" {
-			c.Fail("c07/redo-mismatch", fmt.Sprintf("block %d account %s: replayed logs vs executed:%s", b.Height(), cl.Address.String(), diff), nil)
+			var kinds []string
+			hasSuicide := false
+			for _, x := range b.ChangeLogs {
+				if x.Address == cl.Address {
+					kinds = append(kinds, fmt.Sprintf("%d", x.LogType))
+					if x.LogType == account.SuicideLog {
+						hasSuicide = true
+					}
+				}
+			}
+			sig := "c07/redo-mismatch"
+			if hasSuicide {
+				sig += "/account-with-suicide-log"
+			}
+			c.Fail(sig, fmt.Sprintf("block %d account %s: replayed logs vs executed:%s; published log types of the account in order: %v", b.Height(), cl.Address.String(), diff, kinds), nil)
 		}
 	}
 	// storage / asset / equity entries named by the logs
